@@ -358,7 +358,10 @@ Definition upload_gen (fixed : bool) (cwd : list name) (fs : tree) (src_name : n
         [([], ch)] fs1)
   end.
 
-(* the code as it is *)
+(* [fixed] is a fact about client.py: tools/py2v/gen_client_walks.py reads the computation of `relative`
+   from the source on every run (Gen/ClientWalks.v upload_relative_fixed; any third form fails closed);
+   Extract/ExC09.v and Props/C09.v instantiate it.  Both values are proved about in Proofs/ClientTree.v. *)
+(* the code as found (finding F1) *)
 Definition upload := upload_gen false.
 (* the code after docs/fixes/C09-upload-destination.diff *)
 Definition upload_fixed := upload_gen true.
@@ -502,13 +505,13 @@ Definition sx_of_res {A} (f : A -> sx) (r : res A) : sx :=
 Definition sx_of_items (l : list item) : sx :=
   L (map (fun it => L [sx_of_ppath (fst it); sx_of_bool (snd it)]) l).
 
-Definition run_clienttree (fn : Z) (a : sx) : sx :=
+Definition run_clienttree (fixed : bool) (fn : Z) (a : sx) : sx :=
   let cwd := texts_of_sx (nth_sx 0 a) in
   let fs := tree_of_sx (nth_sx 1 a) in
   match fn with
-  | 0 => (* upload (as written): cwd remote src_name src dst write_into *)
+  | 0 => (* upload as /repo has it now ([fixed] read from the source): cwd remote src_name src dst write_into *)
       sx_of_res sx_of_tree
-        (upload cwd fs (text_of_sx (nth_sx 2 a)) (tree_of_sx (nth_sx 3 a))
+        (upload_gen fixed cwd fs (text_of_sx (nth_sx 2 a)) (tree_of_sx (nth_sx 3 a))
                 (ppath_of_sx (nth_sx 4 a)) (bool_of_sx (nth_sx 5 a)))
   | 1 => sx_of_res sx_of_tree
         (upload_fixed cwd fs (text_of_sx (nth_sx 2 a)) (tree_of_sx (nth_sx 3 a))
@@ -537,5 +540,11 @@ Definition run_clienttree (fn : Z) (a : sx) : sx :=
                          (entries (p_parts (ppath_of_sx (nth_sx 2 a))) t))
       | None => sx_err 550
       end
+  | 9 => (* upload as found (F1), whatever the source says now *)
+      sx_of_res sx_of_tree
+        (upload cwd fs (text_of_sx (nth_sx 2 a)) (tree_of_sx (nth_sx 3 a))
+                (ppath_of_sx (nth_sx 4 a)) (bool_of_sx (nth_sx 5 a)))
+  | 10 => (* which form of upload the source has: 1 = fixed *)
+      sx_of_bool fixed
   | _ => sx_err 99
   end.
